@@ -40,8 +40,10 @@ Proof. intros [|] st d; reflexivity. Qed.
 Lemma tw_sock : forall cfg so lo st p, c_conn cfg = CUp ->
   s_sock (fst (transport_write cfg so lo st p)) = s_sock st ++ [p].
 Proof.
-  intros cfg so lo st p Hup. unfold transport_write, logger_write, sock_write, log_write.
+  intros cfg so lo st p Hup.
+  unfold transport_write, ws_write, logger_write, sock_write, log_write.
   rewrite Hup. simpl.
+  destruct (c_ws cfg); simpl; [destruct (c_log cfg); reflexivity|].
   destruct (c_log cfg); simpl; [|reflexivity].
   repeat (match goal with |- context [if ?c then _ else _] => destruct c end; simpl);
     reflexivity.
@@ -50,8 +52,10 @@ Qed.
 Lemma tw_queue : forall cfg so lo st p,
   s_queue (fst (transport_write cfg so lo st p)) = s_queue st.
 Proof.
-  intros cfg so lo st p. unfold transport_write, logger_write, sock_write, log_write.
+  intros cfg so lo st p.
+  unfold transport_write, ws_write, logger_write, sock_write, log_write.
   destruct (is_up (c_conn cfg)); [|reflexivity].
+  destruct (c_ws cfg); simpl; [destruct (c_log cfg); reflexivity|].
   destruct (c_log cfg); simpl; [|reflexivity].
   repeat (match goal with |- context [if ?c then _ else _] => destruct c end; simpl);
     reflexivity.
@@ -60,8 +64,8 @@ Qed.
 Lemma tw_log_off : forall cfg so lo st p, c_log cfg = false ->
   s_log (fst (transport_write cfg so lo st p)) = s_log st.
 Proof.
-  intros cfg so lo st p Hl. unfold transport_write, sock_write. rewrite Hl.
-  destruct (is_up (c_conn cfg)); reflexivity.
+  intros cfg so lo st p Hl. unfold transport_write, ws_write, sock_write. rewrite Hl.
+  destruct (is_up (c_conn cfg)), (c_ws cfg); reflexivity.
 Qed.
 
 (* a transport that was never connected: an error, nothing written anywhere *)
@@ -73,7 +77,11 @@ Lemma tw_result : forall cfg so lo st p, c_conn cfg = CUp ->
   (snd (transport_write cfg so lo st p) = None <-> write_ok cfg so lo st p = true).
 Proof.
   intros cfg so lo st p Hup.
-  unfold transport_write, write_ok, logger_write, sock_write, log_write. rewrite Hup. simpl.
+  unfold transport_write, write_ok, ws_write, logger_write, sock_write, log_write.
+  rewrite Hup. simpl.
+  destruct (c_ws cfg); simpl.
+  { destruct (c_log cfg); simpl;
+      destruct (w_is_err (so (length (s_sock st)))); simpl; split; auto; discriminate. }
   destruct (c_log cfg); simpl.
   - rewrite app_length. simpl. rewrite Nat.add_1_r.
     destruct (w_is_err (so (length (s_sock st)))); simpl; [split; discriminate|].
@@ -91,16 +99,38 @@ Qed.
 
 (* a successful transport write means the socket took all of p *)
 Lemma write_ok_whole : forall cfg so lo st p,
-  write_ok cfg so lo st p = true -> c_log cfg = true \/ conforming so ->
+  write_ok cfg so lo st p = true -> checks_count cfg = true \/ conforming so ->
   accepted (so (length (s_sock st))) p = p.
 Proof.
-  intros cfg so lo st p Hok Hc. unfold write_ok in Hok.
+  intros cfg so lo st p Hok Hc. unfold write_ok in Hok. unfold checks_count in Hc.
+  destruct (c_ws cfg) eqn:Hw; simpl in Hc.
+  { destruct Hc as [Hc|Hc]; [discriminate|].
+    specialize (Hc (length (s_sock st))).
+    destruct (so (length (s_sock st))); simpl in *; [reflexivity|discriminate|contradiction]. }
   destruct (c_log cfg) eqn:Hl.
   - apply andb_prop in Hok as [Hok _]. apply andb_prop in Hok as [Hok _].
-    apply andb_prop in Hok as [_ Hw]. apply w_whole_accepted. exact Hw.
+    apply andb_prop in Hok as [_ Hw']. apply w_whole_accepted. exact Hw'.
   - destruct Hc as [Hc|Hc]; [discriminate|].
     specialize (Hc (length (s_sock st))).
     destruct (so (length (s_sock st))); simpl in *; [reflexivity|discriminate|contradiction].
+Qed.
+
+(* the WebSocket transport: the log (if any) gets one write, prefix ++ p ++ separator,
+   before the socket and whatever the socket then does; its outcome changes nothing *)
+Lemma ws_log_calls : forall cfg so lo st p, c_conn cfg = CUp -> c_ws cfg = true ->
+  s_log (fst (transport_write cfg so lo st p)) =
+  s_log st ++ (if c_log cfg then [log_prefix ++ p ++ log_sep] else []).
+Proof.
+  intros cfg so lo st p Hup Hws. unfold transport_write, ws_write, sock_write, log_write.
+  rewrite Hup, Hws. simpl. destruct (c_log cfg); simpl; [reflexivity|rewrite app_nil_r; reflexivity].
+Qed.
+
+Lemma ws_result : forall cfg so lo st p, c_conn cfg = CUp -> c_ws cfg = true ->
+  snd (transport_write cfg so lo st p) =
+  if w_is_err (so (length (s_sock st))) then Some ESock else None.
+Proof.
+  intros cfg so lo st p Hup Hws. unfold transport_write, ws_write, sock_write, log_write.
+  rewrite Hup, Hws. simpl. destruct (c_log cfg); reflexivity.
 Qed.
 
 (* ------------------------------------------------------------------ one step *)
@@ -260,9 +290,21 @@ Proof.
   - apply step_nil_attempts.
 Qed.
 
-Lemma rejected_iq_no_write : forall cfg so lo st d,
-  step cfg so lo st (OSendIQ d TOther) = (st, RReject).
-Proof. reflexivity. Qed.
+(* a SendIQ whose type is not get/set, or whose id is still awaiting its response,
+   changes nothing and writes nothing *)
+Lemma rejected_iq_no_write : forall cfg so lo st d t, iq_refused t = true ->
+  step cfg so lo st (OSendIQ d t) = (st, RReject).
+Proof. intros cfg so lo st d t H. simpl. rewrite H. reflexivity. Qed.
+
+(* the WebSocket transport reports exactly the socket's error: whatever the log
+   file does has no influence *)
+Lemma ws_failure_reported : forall cfg so lo st o, attempts cfg o = true -> c_ws cfg = true ->
+  (snd (step cfg so lo st o) = RNil <-> w_is_err (so (length (s_sock st))) = false).
+Proof.
+  intros cfg so lo st o Ha Hws. rewrite (step_attempt _ _ _ _ _ Ha). simpl.
+  rewrite wrap_nil, (ws_result _ _ _ _ _ (attempts_up _ _ Ha) Hws), push_if_sock.
+  destruct (w_is_err (so (length (s_sock st)))); split; auto; discriminate.
+Qed.
 
 (* the result is nil exactly when the transport write succeeded *)
 Lemma failure_reported : forall cfg so lo st o, attempts cfg o = true ->
@@ -278,20 +320,20 @@ Lemma sock_error_reported : forall cfg so lo st o, attempts cfg o = true ->
   w_is_err (so (length (s_sock st))) = true -> snd (step cfg so lo st o) <> RNil.
 Proof.
   intros cfg so lo st o Ha He Hr. apply (failure_reported _ _ _ _ _ Ha) in Hr.
-  unfold write_ok in Hr. rewrite He in Hr. destruct (c_log cfg); discriminate.
+  unfold write_ok in Hr. rewrite He in Hr. destruct (c_ws cfg), (c_log cfg); discriminate.
 Qed.
 
 (* with the logger: a short socket write, a failing or a short log write make
    the call return an error *)
 Lemma logger_faults_reported : forall cfg so lo st o, attempts cfg o = true ->
-  c_log cfg = true ->
+  c_ws cfg = false -> c_log cfg = true ->
   w_whole (so (length (s_sock st))) (op_data o) = false \/
   w_is_err (lo (S (length (s_log st)))) = true \/
   w_whole (lo (S (length (s_log st)))) (op_data o) = false ->
   snd (step cfg so lo st o) <> RNil.
 Proof.
-  intros cfg so lo st o Ha Hl Hf Hr. apply (failure_reported _ _ _ _ _ Ha) in Hr.
-  unfold write_ok in Hr. rewrite Hl in Hr.
+  intros cfg so lo st o Ha Hws Hl Hf Hr. apply (failure_reported _ _ _ _ _ Ha) in Hr.
+  unfold write_ok in Hr. rewrite Hws, Hl in Hr.
   apply andb_prop in Hr as [Hr H4]. apply andb_prop in Hr as [Hr H3].
   apply andb_prop in Hr as [H1 H2].
   destruct Hf as [Hf|[Hf|Hf]].
@@ -303,12 +345,13 @@ Qed.
 (* a write the socket (and, with the logger, the log) takes whole returns nil *)
 Lemma success_is_nil : forall cfg so lo st o, attempts cfg o = true ->
   so (length (s_sock st)) = WOk ->
-  (c_log cfg = false \/ lo (S (length (s_log st))) = WOk) ->
+  (c_ws cfg = true \/ c_log cfg = false \/ lo (S (length (s_log st))) = WOk) ->
   snd (step cfg so lo st o) = RNil.
 Proof.
   intros cfg so lo st o Ha Hs Hl. apply (failure_reported _ _ _ _ _ Ha).
-  unfold write_ok. rewrite Hs. simpl. destruct (c_log cfg); [|reflexivity].
-  destruct Hl as [Hl|Hl]; [discriminate|]. rewrite Hl, !w_whole_ok. reflexivity.
+  unfold write_ok. rewrite Hs. simpl. destruct (c_ws cfg); [reflexivity|].
+  destruct (c_log cfg); [|reflexivity].
+  destruct Hl as [Hl|[Hl|Hl]]; try discriminate. rewrite Hl, !w_whole_ok. reflexivity.
 Qed.
 
 (* a failed send that got to the transport is an error value, never something else *)
@@ -325,7 +368,7 @@ Qed.
 (* a nil result means the socket took the whole data (with a conforming socket,
    or with the logger, which checks the count itself) *)
 Lemma success_whole : forall cfg so lo st o,
-  snd (step cfg so lo st o) = RNil -> c_log cfg = true \/ conforming so ->
+  snd (step cfg so lo st o) = RNil -> checks_count cfg = true \/ conforming so ->
   accepted (so (length (s_sock st))) (op_data o) = op_data o.
 Proof.
   intros cfg so lo st o Hr Hc. pose proof (step_nil_attempts _ _ _ _ _ Hr) as Ha.
@@ -408,7 +451,7 @@ Qed.
 (* if every call returned nil, the byte stream the socket took is the
    concatenation of the data strings *)
 Lemma wire_stream_from : forall cfg so lo ops st,
-  c_log cfg = true \/ conforming so ->
+  checks_count cfg = true \/ conforming so ->
   Forall (fun r => r = RNil) (fst (run cfg so lo st ops)) ->
   stream so (length (s_sock st)) (writes_of cfg ops) = concat (writes_of cfg ops).
 Proof.
@@ -422,7 +465,7 @@ Proof.
 Qed.
 
 Lemma wire_stream : forall cfg so lo ops,
-  c_log cfg = true \/ conforming so ->
+  checks_count cfg = true \/ conforming so ->
   Forall (fun r => r = RNil) (fst (run cfg so lo st0 ops)) ->
   stream so 0 (s_sock (snd (run cfg so lo st0 ops))) = concat (writes_of cfg ops).
 Proof.
@@ -430,19 +473,73 @@ Proof.
   exact (wire_stream_from cfg so lo ops st0 Hc Hall).
 Qed.
 
+Lemma skipn_S_app_cons : forall (A : Type) (a : list A) x b, skipn (S (length a)) (a ++ x :: b) = b.
+Proof. intros A a. induction a as [|y a IH]; intros x b; [reflexivity|]. simpl. apply IH. Qed.
+
+Lemma firstn_length_app : forall (A : Type) (a l : list A), firstn (length a) (a ++ l) = a.
+Proof.
+  intros A a. induction a as [|y a IH]; intros l; [reflexivity|]. simpl. rewrite IH. reflexivity.
+Qed.
+
+Lemma run_app : forall cfg so lo a b st,
+  run cfg so lo st (a ++ b) =
+  (fst (run cfg so lo st a) ++ fst (run cfg so lo (snd (run cfg so lo st a)) b),
+   snd (run cfg so lo (snd (run cfg so lo st a)) b)).
+Proof.
+  intros cfg so lo a. induction a as [|o a IH]; intros b st.
+  - simpl. destruct (run cfg so lo st b); reflexivity.
+  - rewrite <- app_comm_cons, !run_cons. simpl. rewrite IH. reflexivity.
+Qed.
+
+Lemma writes_of_app : forall cfg a b, writes_of cfg (a ++ b) = writes_of cfg a ++ writes_of cfg b.
+Proof. intros. unfold writes_of. rewrite filter_app, map_app. reflexivity. Qed.
+
+(* In ANY history (rejected requests, missing connections, failed writes around
+   it): a send that returned nil has its whole data in the socket's byte stream,
+   at the place of its own write, between what the earlier and the later writes
+   left there. *)
+Lemma each_success_whole : forall cfg so lo ops j o,
+  checks_count cfg = true \/ conforming so ->
+  nth_error ops j = Some o ->
+  nth_error (fst (run cfg so lo st0 ops)) j = Some RNil ->
+  let calls := s_sock (snd (run cfg so lo st0 ops)) in
+  let k := length (writes_of cfg (firstn j ops)) in
+  nth_error calls k = Some (op_data o) /\
+  stream so 0 calls =
+    stream so 0 (firstn k calls) ++ op_data o ++ stream so (S k) (skipn (S k) calls).
+Proof.
+  intros cfg so lo ops j o Hc Ho Hr. cbv zeta.
+  destruct (nth_error_split ops j Ho) as [a [b [Eops Ea]]]. subst ops.
+  assert (Efn : firstn j (a ++ o :: b) = a).
+  { rewrite <- Ea, firstn_app, firstn_all, Nat.sub_diag. simpl. apply app_nil_r. }
+  rewrite Efn. rewrite run_app in Hr. cbn [fst] in Hr.
+  rewrite nth_error_app2 in Hr by (rewrite run_length; lia).
+  rewrite run_length, Ea, Nat.sub_diag, run_cons in Hr. cbn [fst nth_error] in Hr.
+  inversion Hr as [Hnil].
+  pose proof (step_nil_attempts _ _ _ _ _ Hnil) as Hatt.
+  pose proof (success_whole _ _ _ _ _ Hnil Hc) as Hwhole.
+  rewrite one_write_run in Hwhole. simpl in Hwhole.
+  rewrite one_write_run. cbn [s_sock st0 app]. rewrite writes_of_app, writes_of_cons, Hatt.
+  cbn [app]. set (wa := writes_of cfg a) in *. set (wb := writes_of cfg b).
+  rewrite skipn_S_app_cons, firstn_length_app.
+  split.
+  - rewrite nth_error_app2 by lia. rewrite Nat.sub_diag. reflexivity.
+  - rewrite stream_app. cbn [stream]. rewrite Nat.add_0_l, Hwhole. reflexivity.
+Qed.
+
 (* ------------------------------------------------------------------ logger transparency *)
 
-Lemma writes_of_log_irrelevant : forall r sm l1 l2 c ops,
-  writes_of (mkC r sm l1 c) ops = writes_of (mkC r sm l2 c) ops.
+Lemma writes_of_log_irrelevant : forall r sm l1 l2 c ws ops,
+  writes_of (mkC r sm l1 c ws) ops = writes_of (mkC r sm l2 c ws) ops.
 Proof. reflexivity. Qed.
 
 (* socket call list and socket byte stream do not depend on the logger, whatever
    the log file does *)
-Lemma logger_transparent : forall r sm c so lo lo' ops,
-  s_sock (snd (run (mkC r sm true c) so lo st0 ops)) =
-  s_sock (snd (run (mkC r sm false c) so lo' st0 ops)) /\
-  stream so 0 (s_sock (snd (run (mkC r sm true c) so lo st0 ops))) =
-  stream so 0 (s_sock (snd (run (mkC r sm false c) so lo' st0 ops))).
+Lemma logger_transparent : forall r sm c ws so lo lo' ops,
+  s_sock (snd (run (mkC r sm true c ws) so lo st0 ops)) =
+  s_sock (snd (run (mkC r sm false c ws) so lo' st0 ops)) /\
+  stream so 0 (s_sock (snd (run (mkC r sm true c ws) so lo st0 ops))) =
+  stream so 0 (s_sock (snd (run (mkC r sm false c ws) so lo' st0 ops))).
 Proof.
   intros. rewrite !one_write_run. split; reflexivity.
 Qed.
@@ -462,32 +559,34 @@ Qed.
 Definition same_but_log (a b : state) : Prop :=
   s_sock a = s_sock b /\ s_queue a = s_queue b.
 
-Lemma step_log_irrelevant : forall r sm c so lo lo' a b o,
+Lemma step_log_irrelevant : forall r sm c ws so lo lo' a b o,
   healthy lo -> conforming so -> same_but_log a b ->
-  snd (step (mkC r sm true c) so lo a o) = snd (step (mkC r sm false c) so lo' b o) /\
-  same_but_log (fst (step (mkC r sm true c) so lo a o)) (fst (step (mkC r sm false c) so lo' b o)).
+  snd (step (mkC r sm true c ws) so lo a o) = snd (step (mkC r sm false c ws) so lo' b o) /\
+  same_but_log (fst (step (mkC r sm true c ws) so lo a o)) (fst (step (mkC r sm false c ws) so lo' b o)).
 Proof.
-  intros r sm c so lo lo' a b o Hh Hc [Hs Hq].
+  intros r sm c ws so lo lo' a b o Hh Hc [Hs Hq].
   split.
-  - destruct (reaches (mkC r sm true c) o) eqn:Ha.
-    + assert (Hb : reaches (mkC r sm false c) o = true) by exact Ha.
+  - destruct (reaches (mkC r sm true c ws) o) eqn:Ha.
+    + assert (Hb : reaches (mkC r sm false c ws) o = true) by exact Ha.
       rewrite (step_reach _ _ _ _ _ Ha), (step_reach _ _ _ _ _ Hb). simpl.
       unfold transport_write. simpl. destruct (is_up c); [|reflexivity].
+      destruct ws; [unfold ws_write, sock_write, log_write; simpl; rewrite !push_if_sock, Hs; reflexivity|].
       rewrite (logger_write_snd_healthy _ _ _ _ Hh Hc).
       rewrite !push_if_sock, Hs. reflexivity.
-    + assert (Hb : reaches (mkC r sm false c) o = false) by exact Ha.
+    + assert (Hb : reaches (mkC r sm false c ws) o = false) by exact Ha.
       destruct (step_noreach _ so lo a o Ha) as [_ H1].
       destruct (step_noreach _ so lo' b o Hb) as [_ H2].
       unfold reaches in Ha. simpl in Ha.
       destruct o as [d nz|s nz|d t]; try destruct t; destruct c; try discriminate; reflexivity.
-  - assert (Hres : snd (step (mkC r sm true c) so lo a o) = snd (step (mkC r sm false c) so lo' b o)).
-    { destruct (reaches (mkC r sm true c) o) eqn:Ha.
-      + assert (Hb : reaches (mkC r sm false c) o = true) by exact Ha.
+  - assert (Hres : snd (step (mkC r sm true c ws) so lo a o) = snd (step (mkC r sm false c ws) so lo' b o)).
+    { destruct (reaches (mkC r sm true c ws) o) eqn:Ha.
+      + assert (Hb : reaches (mkC r sm false c ws) o = true) by exact Ha.
         rewrite (step_reach _ _ _ _ _ Ha), (step_reach _ _ _ _ _ Hb). simpl.
         unfold transport_write. simpl. destruct (is_up c); [|reflexivity].
+        destruct ws; [unfold ws_write, sock_write, log_write; simpl; rewrite !push_if_sock, Hs; reflexivity|].
         rewrite (logger_write_snd_healthy _ _ _ _ Hh Hc).
         rewrite !push_if_sock, Hs. reflexivity.
-      + assert (Hb : reaches (mkC r sm false c) o = false) by exact Ha.
+      + assert (Hb : reaches (mkC r sm false c ws) o = false) by exact Ha.
         unfold reaches in Ha. simpl in Ha.
         destruct o as [d nz|s nz|d t]; try destruct t; destruct c; try discriminate; reflexivity. }
     unfold same_but_log. rewrite !step_sock, !step_queue, Hs, Hq, Hres. split; reflexivity.
@@ -495,25 +594,25 @@ Qed.
 
 (* with a working log file and a conforming socket every call returns the same
    with and without the logger, and the queue is the same *)
-Lemma logger_results_from : forall r sm c so lo lo' ops a b,
+Lemma logger_results_from : forall r sm c ws so lo lo' ops a b,
   healthy lo -> conforming so -> same_but_log a b ->
-  fst (run (mkC r sm true c) so lo a ops) = fst (run (mkC r sm false c) so lo' b ops) /\
-  s_queue (snd (run (mkC r sm true c) so lo a ops)) =
-  s_queue (snd (run (mkC r sm false c) so lo' b ops)).
+  fst (run (mkC r sm true c ws) so lo a ops) = fst (run (mkC r sm false c ws) so lo' b ops) /\
+  s_queue (snd (run (mkC r sm true c ws) so lo a ops)) =
+  s_queue (snd (run (mkC r sm false c ws) so lo' b ops)).
 Proof.
-  intros r sm c so lo lo' ops. induction ops as [|o rest IH]; intros a b Hh Hc Hab.
+  intros r sm c ws so lo lo' ops. induction ops as [|o rest IH]; intros a b Hh Hc Hab.
   - simpl. split; [reflexivity|apply Hab].
   - rewrite !run_cons. simpl.
-    destruct (step_log_irrelevant r sm c so lo lo' a b o Hh Hc Hab) as [Hr Hst].
+    destruct (step_log_irrelevant r sm c ws so lo lo' a b o Hh Hc Hab) as [Hr Hst].
     destruct (IH _ _ Hh Hc Hst) as [IH1 IH2]. rewrite Hr, IH1. split; [reflexivity|exact IH2].
 Qed.
 
-Lemma logger_results : forall r sm c so lo lo' ops,
+Lemma logger_results : forall r sm c ws so lo lo' ops,
   healthy lo -> conforming so ->
-  fst (run (mkC r sm true c) so lo st0 ops) = fst (run (mkC r sm false c) so lo' st0 ops).
+  fst (run (mkC r sm true c ws) so lo st0 ops) = fst (run (mkC r sm false c ws) so lo' st0 ops).
 Proof.
-  intros r sm c so lo lo' ops Hh Hc.
-  apply (logger_results_from r sm c so lo lo' ops st0 st0 Hh Hc). split; reflexivity.
+  intros r sm c ws so lo lo' ops Hh Hc.
+  apply (logger_results_from r sm c ws so lo lo' ops st0 st0 Hh Hc). split; reflexivity.
 Qed.
 
 (* the log file of a fault-free run: SEND:\n p p' \n\n per write, where the log
